@@ -3,14 +3,13 @@ SPEC = {
     'harness': 'hC35',
     'coq_dir': 'C35',
     'claimed': False,
-    'theorems': ['C35_terminates', 'C35_no_deadlock_refuted', 'C35_second_phase_terminates_refuted',
-                 'C35_no_deadlock_partial', 'C35_second_phase_terminates_partial',
+    'theorems': ['C35_terminates', 'C35_no_deadlock', 'C35_second_phase_terminates',
                  'C35_single_goroutine_correct',
-                 'C35_delivers_if_servable_refuted', 'C35_delivers_if_servable_partial',
-                 'C35_phase_one_delivers_refuted',
-                 'C35_delivered_only_served_partial', 'C35_trace_justified',
-                 'C35_failed_peer_not_reasked_refuted', 'C35_failed_peer_not_reasked_partial',
-                 'C35_not_reasked_in_task_refuted', 'C35_hypotheses_satisfiable'],
+                 'C35_delivers_if_servable',
+                 'C35_delivered_only_served', 'C35_trace_justified',
+                 'C35_failed_peer_not_reasked',
+                 'C35_not_reasked_in_task_refuted', 'C35_not_reasked_in_task_partial',
+                 'C35_hypotheses_satisfiable'],
     'allowed_axioms': [],
     'shard': 40,
     'check_preamble': 'From C33 Require Import C35.Model C35.Spec.\nOpen Scope Z_scope.\n',
@@ -19,49 +18,52 @@ SPEC = {
             '(peers, undecodable strings, the downloader itself, duplicates, empty; fallback to the connected peers), per-peer '
             'latency (unknown / equal / distinct) and advertised height, height range (1-12 heights, start > end), behaviour per '
             '(peer, height): ok / refuse (stream reset) / malformed (5 variants: bad header, undecodable frame, empty item list, '
-            'non-block item, no message) / wrong height (another height inside or outside the range) / stall (the peer accepts the stream and stays silent; slow lane, observed for 13 s). '
+            'non-block item, no message) / wrong height (another height inside or outside the range) / stall (the peer accepts the '
+            'stream and stays silent until the downloader\'s 10 s stream deadline; slow lane; a request still pending after 13 s counts as never ending). '
             'The controller lets every height goroutine send its first request, then answers exactly one held request at a time '
-            '(seeded random order, or the fixed order of a witness) and waits - by the arrival of the next request, the '
-            'EventSyncBlock, or a goroutine census (runtime.Stack: the goroutine returned or sits in the 400 ms sleep) - before the '
-            'next answer, so the interleaving of the critical sections is the one the model replays. Streams: witness (three of the '
-            'recorded findings), limit (one peer, 52-54 heights: requests held at the peer after the burst, largest number of outstanding '
-            'requests ever, heights delivered - against the model\'s burst and limit_of), ack, single, guarded-single / guarded-multi (guard of the partial theorems holds and nothing '
-            'fails twice: any spec failure is a violation), multi, wrong, dup, slow-* (own process each: sleeping goroutines, '
-            'peers below the height, silent peers; the model witnesses cfg_lost and cfg_reask). Observables: acknowledgement, order of '
+            '(seeded random order, or a fixed order) and waits - by the arrival of the next request, the '
+            'EventSyncBlock, or a goroutine census (runtime.Stack: every live height goroutine is inside a request or in the 400 ms sleep) - before the '
+            'next answer, so the interleaving of the critical sections is the one the model replays; a request to a silent peer is set aside and '
+            'enters the reply order when its consequence (next request / nothing left to ask) is seen. Streams: witness (the inputs of the '
+            'three fixed findings and of the open one), limit (one peer, 52-54 heights: requests held at the peer after the burst, largest number of outstanding '
+            'requests ever, heights delivered - against the model\'s burst and limit_of), ack, single, guarded-single / guarded-multi (some peer serves every height, so no height '
+            'fails in phase one: any spec failure is a violation), multi, wrong, dup, slow-* (own process each: sleeping goroutines, '
+            'peers below the height, silent peers in phase one and in front of a sleeping goroutine; the former aliasing witnesses cfg_lost and cfg_reask). Observables: acknowledgement, order of '
             'answers, trace of task-list constructions (Peerstore.LatencyEWMA calls) / requests seen by the peers / blocks '
             'received by a fake blockchain module, handler return. non-trivial = the acknowledgement is not ok or some request '
             'was not answered with the requested block; distinct = distinct Gallina case terms',
     'trusted_base': [
         'the transition system of Model.v is a hand transcription of handler.go/download.go/task.go: critical sections under the '
-        'task-list mutex (Sort, availbTask, Remove) are atomic events, releaseJob is an event of its own, the request/answer is '
-        'the Result event; peers are input functions (behaviour constant per (peer, height))',
+        'task-list mutex (Sort, availbTask, without) are atomic events, releaseJob is an event of its own, the request/answer is '
+        'the Result event (block of the requested height, or an error: reset, malformed, other height, stream deadline); peers are input functions (behaviour constant per (peer, height))',
         'sort.Sort on at most 12 tasks is insertion sort (stable); the harness uses at most 6 peers',
         'the correspondence is sampled over real schedules that the controller serialises; interleavings inside the initial '
-        'burst are not distinguished (before the first Remove all views are equal and fewer than 20 heights never reach the '
+        'burst are not distinguished (the goroutines share only the sorted array and the TaskNum counters, and fewer than 20 heights never reach the '
         'per-peer limit, so the burst is confluent) - checked per case by exact equality of the whole observable trace',
-        'libp2p transport, msgio framing, protobuf decoding and the chain33 queue are used as they are (not modelled); '
-        'a silent peer is modelled as an answer that never comes (ReadStream has no deadline); the harness observes it for 13 s',
+        'libp2p transport, msgio framing, protobuf decoding, stream deadlines and the chain33 queue are used as they are (not modelled); '
+        'a silent peer is modelled as a request that fails (the 10 s stream deadline); time is not modelled',
         'PeerInfoManager, ConnManager and Peerstore.LatencyEWMA are harness fakes behind the protocol\'s own interfaces; no hook file',
     ],
     'assumptions': [
         'servable = some given peer has an advertised height >= h (availbTask skips lower peers) and answers h with the block of height h',
-        'the partial delivery theorem needs: no given peer answers a height of the range with a block of another height '
-        '(finding 3), no given peer stays silent (finding 4) and at most 50 peers (the retry bound); behaviours do not change during the task',
+        'the delivery theorem needs at most 50 given peers (task entries): downloadBlock gives up after 50 attempts in either phase '
+        '(Example few_peers_needed: with 51 entries of which the first 50 refuse, the servable height is not delivered); behaviours do not change during the task',
         '"not asked again" is checked for pid lists without duplicates (a peer named twice has two task entries)',
         'p.Ctx is not cancelled during the task; the TaskNum limit is exercised only by the limit stream (one peer), where the '
         'comparison is on counts (the wake-up order of sleeping goroutines is timing dependent), not on the whole trace',
-        'phase-one re-asks (finding 1) and phase-two re-asks (finding 2) are recorded findings; the property text\'s "within the same task" is read as including checkTask',
+        'phase-two re-asks (finding 2) are a recorded finding; the property text\'s "within the same task" is read as including checkTask',
     ],
     'manifest': {
-        'level_text': 'partial: bounded work and (without silent peers) progress, the single-goroutine core, soundness of everything handed over and delivery of every '
-                      'servable height (guard: no wrong-height answers, no silent peers, <= 50 peers) are proved for ALL schedules of the transition system; '
-                      '"failed peer not asked again" is refuted for two or more heights (aliasing) and across the second phase, both '
-                      'reproduced on the Go code; the tie to the Go code samples schedules (serialised by the harness), it does not enumerate them',
-        'level_note': 'model = transition system with the shared backing array, per-goroutine view lengths, shared TaskNum/Index, '
-                      'retry counters; peers, latencies, advertised heights are inputs; four known findings (aliasing re-ask, second-phase re-ask, '
-                      'wrong-height block accepted, silent peer blocks the task for ever)',
-        'technique': 'Coq proof (measure for termination, invariant over all schedules, simulation of the single goroutine by a '
-                     'recursive function, vm_compute witnesses for the refutations) + in-kernel trace correspondence on controller-serialised runs',
+        'level_text': 'partial: bounded work, progress and return of both phases, soundness of everything handed over, delivery of every '
+                      'servable height whatever the other peers do (guard: <= 50 given peers, the retry bound) and "failed peer not asked again" '
+                      'within phase one are proved for ALL schedules of the transition system and any number of heights; '
+                      '"not asked again" across the second phase (checkTask rebuilds the peer list) is refuted and reproduced on the Go code '
+                      '(open finding; it holds when no height fails in phase one); the tie to the Go code samples schedules (serialised by the harness), it does not enumerate them',
+        'level_note': 'model = transition system with the shared sorted array, per-goroutine own lists after the first removal (tasks.without), shared TaskNum, '
+                      'retry counters; peers, latencies, advertised heights are inputs; three findings fixed in chain33 (aliasing re-ask 203ed0e, '
+                      'wrong-height block accepted be3c9ca, silent peer blocks the task for ever 85423f4), one open (second-phase re-ask)',
+        'technique': 'Coq proof (measure for termination, invariants over all schedules, simulation of the single goroutine by a '
+                     'recursive function, vm_compute witness for the refutation) + in-kernel trace correspondence on controller-serialised runs',
     },
     'harness_timeout': {'quick': 400, 'thorough': 3600},
 }
